@@ -133,7 +133,10 @@ func (planner *otShapePlanner) categorizeComplex() otComplexShaper {
 		language.Hanifi_Rohingya, language.Makasar, language.Medefaidrin, language.Old_Sogdian,
 		language.Sogdian, language.Elymaic, language.Nandinagari, language.Nyiakeng_Puachue_Hmong,
 		language.Wancho,
-		language.Chorasmian, language.Dives_Akuru, language.Khitan_Small_Script, language.Yezidi:
+		language.Chorasmian, language.Dives_Akuru, language.Khitan_Small_Script, language.Yezidi,
+		// Unicode 14 and 15 (the USE category table covers them)
+		language.Cypro_Minoan, language.Old_Uyghur, language.Tangsa, language.Toto, language.Vithkuqi,
+		language.Kawi, language.Nag_Mundari:
 
 		/* If the designer designed the font for the 'DFLT' script,
 		 * (or we ended up arbitrarily pick 'latn'), use the default shaper.
